@@ -1,11 +1,12 @@
-SPECIFICATION Spec
+SPECIFICATION GSpec
 CONSTANTS
   Names <- MCNames
-  MaxOps = 4
+  MaxOps = 9
+  GenSteps = 3
   Cap = 0
-  RingSize = 2
+  RingSize = 10
   STRICT_REMOVE = FALSE
   WatchFile = TRUE
-  HELD = FALSE
-INVARIANTS InOrder Correlated NoLoss
+  HELD = TRUE
+INVARIANT Emit
 CHECK_DEADLOCK FALSE
